@@ -11,7 +11,7 @@ from harness.rank import vector_valued_commutative_factor
 from harness.sexp import dumps, loads_all
 
 PID = 'C02'
-PROPS_MODULE = 'SympdeModel.Props.C02'
+PROPS_MODULE = ['SympdeModel.Props.C02', 'SympdeModel.Props.C02b']
 EXTRA_THEOREM_MODULES = ['SympdeModel.Lemmas.Calc']
 RULE = ('random well-typed generic programs (as for C01) plus interface-operator programs, built bottom-up with the real '
         'constructors; every constructor application (operator, already built argument trees) is one case; '
